@@ -1,0 +1,85 @@
+//! Verification hooks: add-only re-exports of crate-private items and a memory-access
+//! trace for the ring buffer.  Compiled only with the `verif_hooks` cargo feature.
+//! Nothing in here contains codec logic; everything is a pass-through.
+use std::cell::RefCell;
+use std::vec::Vec;
+
+pub use crate::decoding::decode_buffer::DecodeBuffer;
+pub use crate::decoding::VerifRingBuffer as RingBuffer;
+
+/// One raw memory event of the ring buffer: kind ("r", "w", "alloc", "dealloc"), address, length.
+#[derive(Clone, Debug, PartialEq, Eq)]
+pub struct MemEvent {
+    pub kind: &'static str,
+    pub addr: usize,
+    pub len: usize,
+}
+
+/// One call of `copy_bytes_overshooting`: (src addr, src len, dst addr, dst len, copy_at_least).
+#[derive(Clone, Debug, PartialEq, Eq)]
+pub struct CboEvent {
+    pub src: usize,
+    pub src_len: usize,
+    pub dst: usize,
+    pub dst_len: usize,
+    pub copy_at_least: usize,
+}
+
+std::thread_local! {
+    static TRACE_ON: RefCell<bool> = const { RefCell::new(false) };
+    static MEM: RefCell<Vec<MemEvent>> = const { RefCell::new(Vec::new()) };
+    static CBO: RefCell<Vec<CboEvent>> = const { RefCell::new(Vec::new()) };
+}
+
+pub fn trace_enable(on: bool) {
+    TRACE_ON.with(|t| *t.borrow_mut() = on);
+}
+
+pub fn trace_take() -> (Vec<MemEvent>, Vec<CboEvent>) {
+    (
+        MEM.with(|m| core::mem::take(&mut *m.borrow_mut())),
+        CBO.with(|m| core::mem::take(&mut *m.borrow_mut())),
+    )
+}
+
+#[inline]
+pub(crate) fn mem(kind: &'static str, addr: usize, len: usize) {
+    if TRACE_ON.with(|t| *t.borrow()) {
+        MEM.with(|m| m.borrow_mut().push(MemEvent { kind, addr, len }));
+    }
+}
+
+#[inline]
+pub(crate) fn cbo(src: usize, src_len: usize, dst: usize, dst_len: usize, copy_at_least: usize) {
+    if TRACE_ON.with(|t| *t.borrow()) {
+        CBO.with(|m| {
+            m.borrow_mut().push(CboEvent {
+                src,
+                src_len,
+                dst,
+                dst_len,
+                copy_at_least,
+            })
+        });
+    }
+}
+
+/// Private pure functions of the sequence coder (C14).
+pub mod seqcodes {
+    pub use crate::decoding::sequence_execution::verif_do_offset_history as do_offset_history;
+    pub use crate::decoding::sequence_section_decoder::verif::*;
+    pub use crate::encoding::blocks::verif::*;
+}
+
+/// Header parsers / writers (C14, C11).
+pub mod headers {
+    pub use crate::blocks::block::{BlockHeader as DecBlockHeader, BlockType};
+    pub use crate::blocks::literals_section::{LiteralsSection, LiteralsSectionType};
+    pub use crate::blocks::sequence_section::{CompressionModes, ModeType, SequencesHeader};
+    pub use crate::decoding::block_decoder::{new as new_block_decoder, BlockDecoder};
+    pub use crate::decoding::frame::{
+        read_frame_header, FrameDescriptor, FrameHeader as DecFrameHeader,
+    };
+    pub use crate::encoding::block_header::BlockHeader as EncBlockHeader;
+    pub use crate::encoding::frame_header::FrameHeader as EncFrameHeader;
+}
